@@ -454,6 +454,14 @@ func c13Execute(e *c13Env, idx int, doc *c13Doc, d *dag.DAG, violate func(key, w
 		violate("panic|"+g.fn, "running an accepted definition through the agent panicked in "+g.fn+": "+clip(g.msg, 200))
 		return
 	}
+	if runErr != nil {
+		// the run was refused before it began (malformed graph, unmet precondition,
+		// log directory): nothing serves or records a status for it
+		if files, _ := filepath.Glob(filepath.Join(dataDir, "*", "*.dat")); len(files) == 0 {
+			c.Count("executed_refused", 1)
+			return
+		}
+	}
 	g = guard(10*time.Second, func() {
 		if _, err := a.Status().ToJSON(); err != nil {
 			violate("served-status-unserialisable", "the status the agent serves for an accepted definition cannot be encoded: "+err.Error())
@@ -532,6 +540,6 @@ func init() {
 		Passes: func(tier string) []core.Pass {
 			return []core.Pass{{Name: "main", Mode: "load", Shards: 16, Timeout: 60 * time.Minute}}
 		},
-		Rule: "Documents: valid definitions drawn from a grammar covering every documented field (schedule in its three forms, env list/map, params, logDir, handlers, functions/call, sub-workflow, executor string/map/nested config, preconditions incl. re:, retry/repeat/continueOn, signalOnStop, mail/smtp, limits); 1-3 structural mutations of such a tree (type confusion scalar/list/map/null, delete, duplicate key, wrap in list/map, unknown key, non-string keys, null list elements, hostile strings: invalid regex/cron/signal, YAML 1.1 booleans, 70 kB strings, unicode); a quarter additionally byte-mutated; raw random bytes; deeply nested documents (50-20000 levels); a hand-written corpus aimed at every hand-coded type switch. Each document goes, inside a child process that logs BEGIN/END around it, through dag.LoadYAML, LoadMetadata, LoadWithoutEval, (safe-pool strings only) Load and Load with the document as base configuration, DAGStore.GetMetadata/GetDetails/List/Grep/TagList/UpdateSpec, client.GetStatus/GetAllStatus, and the scheduler daemon's directory scan + one tick. Refuted by: a panic (caught per call, keyed by the innermost blackdagger frame) or process death, a call that does not return in 30 s, an accepted definition with a step without name / with nothing to execute, a schedule entry that is not parsed or not parseable, an unknown signalOnStop, a status (model.NewStatus) that cannot be JSON-encoded, read back and re-encoded identically; EvalConditions panicking; for accepted definitions whose steps are harmless (true/false/echo/sh, no repeat, no mail) the real Agent.Run over a real history store: panic, served status not encodable, run file present but not readable back with the request id and a final status. Non-trivial & distinct = distinct document texts.",
+		Rule:        "Documents: valid definitions drawn from a grammar covering every documented field (schedule in its three forms, env list/map, params, logDir, handlers, functions/call, sub-workflow, executor string/map/nested config, preconditions incl. re:, retry/repeat/continueOn, signalOnStop, mail/smtp, limits); 1-3 structural mutations of such a tree (type confusion scalar/list/map/null, delete, duplicate key, wrap in list/map, unknown key, non-string keys, null list elements, hostile strings: invalid regex/cron/signal, YAML 1.1 booleans, 70 kB strings, unicode); a quarter additionally byte-mutated; raw random bytes; deeply nested documents (50-20000 levels); a hand-written corpus aimed at every hand-coded type switch. Each document goes, inside a child process that logs BEGIN/END around it, through dag.LoadYAML, LoadMetadata, LoadWithoutEval, (safe-pool strings only) Load and Load with the document as base configuration, DAGStore.GetMetadata/GetDetails/List/Grep/TagList/UpdateSpec, client.GetStatus/GetAllStatus, and the scheduler daemon's directory scan + one tick. Refuted by: a panic (caught per call, keyed by the innermost blackdagger frame) or process death, a call that does not return in 30 s, an accepted definition with a step without name / with nothing to execute, a schedule entry that is not parsed or not parseable, an unknown signalOnStop, a status (model.NewStatus) that cannot be JSON-encoded, read back and re-encoded identically; EvalConditions panicking; for accepted definitions whose steps are harmless (true/false/echo/sh, no repeat, no mail) the real Agent.Run over a real history store: panic, served status not encodable, run file present but not readable back with the request id and a final status. Non-trivial & distinct = distinct document texts.",
 		Assumptions: []string{"commands that an evaluating load may execute resolve only inside a scratch bin directory (sh, echo, true, false)", "the executed subset is restricted to harmless short steps; a run that exceeds 20 s is counted, not judged"}})
 }
